@@ -33,7 +33,13 @@ def actions(plan_lines):
 def run_case(case, opts):
     text = case["text"]
     rec = {"id": case["id"], "kind": case["kind"], "lines": lex(text), "text": text[-1500:]}
-    p = pylib.write_tmp(text, ".out", newline="")
+    if case["id"] % 2:
+        # the planner loop of a user: every run overwrites the same output file
+        p = pylib.scratch_dir() / "planner_output.txt"
+        with open(p, "wt", encoding="utf-8", newline="") as f:
+            f.write(text)
+    else:
+        p = pylib.write_tmp(text, ".out", newline="")
     try:
         if case["kind"] == "ff":
             status, seq = MetricFFParser().get_solving_status(p)
